@@ -32,6 +32,7 @@ from unified_planning.model import (
     Expression,
     Effect,
 )
+from unified_planning.exceptions import UPConflictingEffectsException
 from unified_planning.model.problem_kind_versioning import LATEST_PROBLEM_KIND_VERSION
 from unified_planning.model.walkers import ExpressionQuantifiersRemover
 from unified_planning.engines.compilers.utils import (
@@ -182,6 +183,10 @@ class QuantifiersRemover(engines.engine.Engine, CompilerMixin):
         new_problem.clear_goals()
         new_problem.clear_quality_metrics()
 
+        # the actions whose forall effects, once expanded, conflict with another effect of
+        # the same action (e.g. "x(o) := 2" with "forall v: x(v) += 1"): the original action
+        # can not be applied, so it is left out of the compiled problem (as the grounder does)
+        invalid_actions: List[Action] = []
         for action in new_problem.actions:
             if isinstance(action, InstantaneousAction):
                 original_action = problem.action(action.name)
@@ -193,21 +198,25 @@ class QuantifiersRemover(engines.engine.Engine, CompilerMixin):
                     )
                 original_effects = action.effects
                 action.clear_effects()
-                for effect in original_effects:
-                    for e in effect.expand_effect(new_problem):
-                        if e.is_conditional():
-                            e.set_condition(
+                try:
+                    for effect in original_effects:
+                        for e in effect.expand_effect(new_problem):
+                            if e.is_conditional():
+                                e.set_condition(
+                                    expression_quantifier_remover.remove_quantifiers(
+                                        e.condition, problem
+                                    ).simplify()
+                                )
+                            e.set_value(
                                 expression_quantifier_remover.remove_quantifiers(
-                                    e.condition, problem
-                                ).simplify()
+                                    e.value, problem
+                                )
                             )
-                        e.set_value(
-                            expression_quantifier_remover.remove_quantifiers(
-                                e.value, problem
-                            )
-                        )
-                        if not e.condition.is_false():
-                            action._add_effect_instance(e)
+                            if not e.condition.is_false():
+                                action._add_effect_instance(e)
+                except UPConflictingEffectsException:
+                    invalid_actions.append(action)
+                    continue
                 new_to_old[action] = original_action
             elif isinstance(action, DurativeAction):
                 original_action = problem.action(action.name)
@@ -242,6 +251,14 @@ class QuantifiersRemover(engines.engine.Engine, CompilerMixin):
                 new_to_old[action] = original_action
             else:
                 raise NotImplementedError
+        if invalid_actions:
+            valid_actions = [
+                a
+                for a in new_problem.actions
+                if all(a is not ia for ia in invalid_actions)
+            ]
+            new_problem.clear_actions()
+            new_problem.add_actions(valid_actions)
         problem_timed_effects = new_problem.timed_effects
         new_problem.clear_timed_effects()
         for t, el in problem_timed_effects.items():
